@@ -129,7 +129,11 @@ def target_codes():
 
 PATH_FILTERS = ['r->val == 1', 'r->val == 2', 'r->val == 7', 'r->val == 9', 'r->val', 'not r->val', 'r->val < 5', 'r->val >= 2',
                 'r->id', 'r->k', 'r->r->val == 1', 'r->val == 1 or k == "d"', 'k == "a" and r->val', 'r->val != 7', 'id and val > 1',
-                'r->nope', 'not r->nope', 'r == @t1', 'r == @p1', 'val', 'k']
+                'r->nope', 'not r->nope', 'r == @t1', 'r == @p1', 'val', 'k',
+                # comparisons that are refused for one row and fine for the next (units, kinds): what one evaluation learns
+                # about a pair of operands says nothing about the next pair
+                'q > 5kW', 'q > 70degF', 'q < 100degF', 'q == 72degF', 'q >= 20kW', 'q != 5kW', 'q <= 72degF', 'val > 5kW', 'q > 5',
+                'k > 5', 'k < "c"', 'val < "c"', 'q < "c"', 'r->q > 70degF', 'r->q > 5kW', 'q', 'k == 5', 'val == "a"']
 
 _FIRST_USE = r'''
 import sys, json, warnings
@@ -157,8 +161,10 @@ def mixed_grid():
     R = hszinc.Ref
     rows = [{'id': R('t1'), 'val': 1.0}, {'id': 't1', 'val': 2.0}, {'id': 'p1', 'val': 7.0}, {'id': R('q1'), 'val': 9.0, 'r': R('t1')},
             {'r': R('t1'), 'k': 'a'}, {'r': R('p1'), 'k': 'b'}, {'r': R('q1'), 'k': 'c'}, {'r': R('nowhere'), 'k': 'd'},
-            {'r': R('t1', 'Display T'), 'k': 'e'}, {'r': 't1', 'k': 'f'}, {'id': R('z9'), 'r': R('p1'), 'val': 3.0}]
-    g = hszinc.Grid(version='3.0', columns=[(c, []) for c in ('id', 'val', 'r', 'k')])
+            {'r': R('t1', 'Display T'), 'k': 'e'}, {'r': 't1', 'k': 'f'}, {'id': R('z9'), 'r': R('p1'), 'val': 3.0},
+            {'id': R('u1'), 'q': hszinc.Quantity(72, 'degF')}, {'id': R('u2'), 'q': hszinc.Quantity(30, 'kW'), 'k': 'g'},
+            {'q': hszinc.Quantity(68, 'degF'), 'r': R('u1')}, {'q': 80.0, 'r': R('u2'), 'k': 'h'}, {'q': hszinc.Quantity(3, 'kW'), 'val': 6.0}]
+    g = hszinc.Grid(version='3.0', columns=[(c, []) for c in ('id', 'val', 'r', 'k', 'q')])
     for r in rows:
         g.append(r)
     return g, rows
@@ -204,7 +210,7 @@ def first_use_part(spec, ctx):
             got = 'raised ' + type(e).__name__
         ctx.count('results compared with the first-use result')
         if got != base[text]:
-            ctx.violation({'part': 'history', 'kind': 'filter', 'symptom': 'differs-from-first-use', 'features': ['mixed-id-spellings']},
+            ctx.violation({'part': 'history', 'kind': 'filter', 'symptom': 'differs-from-first-use', 'features': ['mixed-ids-and-units-grid']},
                           'filter %r gives rows %r after %d other evaluations in this process, %r when it is the first filter an '
                           'interpreter ever evaluates' % (text, got, j, base[text]), {'phase': 'first-use', 'n': j + 1})
             break
